@@ -64,6 +64,17 @@ CLAIMS = {
         note='Not decided: "never stops making progress" (liveness). Table entries classed ASSUMED/API-PRECONDITION are trusted with their stated reason and echoed in the evidence. '
              'A new, correct but unprovable panic-capable site on a peer-driven path is reported until reviewed (conservative side).',
         ref='DESIGN.md section 5 C16'),
+    'C01': dict(
+        technique='table and schema agreement: constants and enum discriminants vs transcribed OASIS tables, property-loop extraction (decode) and emission-event extraction (encode) cross-checked per identifier and field, first-byte/flag expressions extracted and evaluated over all flag combinations; imports the C09 symbolic size/emission equivalence and the C02 frame-exhaustion dataflow (static analysis on MIR)',
+        text='Structural part. Packet type bytes, the 27 property identifiers and all reason/return-code enums equal the specification tables in both directions; enum<->u8 conversions are the '
+             'discriminant. For each of the 14/13 packet variants the encoder writes the specified type+flags byte and the decoder maps it back to the same variant; the PUBLISH first-byte '
+             'expression and the decoders\' dup/qos/retain expressions round-trip for all 12 combinations. Every decoder property loop accepts exactly the identifiers allowed in its packet with '
+             'the specified wire type and repeatability; every emitted property is allowed in its packet, has a field of the specified wire type, every allowed property can be emitted, and each '
+             'identifier is decoded into the very field it is encoded from (52 pairs). Imported: every encoder writes exactly what its size function counts and length prefixes have the right '
+             'width (C09), decoders accept a frame only after reading all of it (C02).',
+        note='Not decided: equality of concrete field values after a round trip (string contents, numeric values), the order of the fixed (non-property) fields inside each packet, '
+             'acceptance of every legal property ORDER (follows from the loop shape but is not separately proven), an independent spec encoder/decoder. Spec tables are hand transcriptions.',
+        ref='DESIGN.md section 5 C01'),
     'C02': dict(
         technique='panic-site enumeration over the decoders\' call graph + available-bytes must-dataflow + varint path enumeration + must-pass rule for the inbound size limit + property-loop extraction (static analysis on MIR)',
         text='Structural part: every panic-capable MIR site (Buf get_*/advance/split_to, overflow and bounds asserts, slicing, unwrap/expect) reachable from the three Decoder::decode '
